@@ -2,9 +2,80 @@
 //! after traffic, EINTR injected into the waits.
 use crate::conc::{tagged, untag};
 use crate::util::*;
-use ipc_channel::platform::{self, OsIpcReceiverSet, OsIpcSelectionResult, OsIpcSender};
+use ipc_channel::ipc::{self, IpcReceiver, IpcReceiverSet, IpcSelectionResult, IpcSender};
+use ipc_channel::platform::{self, OsIpcReceiver, OsIpcReceiverSet, OsIpcSelectionResult, OsIpcSender};
 use serde_json::json;
 use std::io::BufRead;
+
+/// the two levels at which a receiver set exists: the platform's OsIpcReceiverSet and the public IpcReceiverSet
+trait SetL: Send + 'static {
+    type Rx: Send + 'static;
+    type Tx: Send + 'static;
+    fn chan() -> (Self::Tx, Self::Rx);
+    fn send(tx: &Self::Tx, d: Vec<u8>);
+    fn new() -> Self;
+    fn add(&mut self, r: Self::Rx) -> u64;
+    /// (id, Some(payload)) for a message, (id, None) for a closure
+    fn select(&mut self) -> Result<Vec<(u64, Option<Vec<u8>>)>, String>;
+}
+
+impl SetL for OsIpcReceiverSet {
+    type Rx = OsIpcReceiver;
+    type Tx = OsIpcSender;
+    fn chan() -> (OsIpcSender, OsIpcReceiver) {
+        platform::channel().unwrap()
+    }
+    fn send(tx: &OsIpcSender, d: Vec<u8>) {
+        let _ = tx.send(&d, vec![], vec![]);
+    }
+    fn new() -> Self {
+        OsIpcReceiverSet::new().unwrap()
+    }
+    fn add(&mut self, r: OsIpcReceiver) -> u64 {
+        OsIpcReceiverSet::add(self, r).unwrap()
+    }
+    fn select(&mut self) -> Result<Vec<(u64, Option<Vec<u8>>)>, String> {
+        match OsIpcReceiverSet::select(self) {
+            Ok(evs) => Ok(evs
+                .into_iter()
+                .map(|e| match e {
+                    OsIpcSelectionResult::DataReceived(rid, d, _, _) => (rid, Some(d)),
+                    OsIpcSelectionResult::ChannelClosed(rid) => (rid, None),
+                })
+                .collect()),
+            Err(e) => Err(format!("{:?}", std::io::Error::from(e))),
+        }
+    }
+}
+
+impl SetL for IpcReceiverSet {
+    type Rx = IpcReceiver<Vec<u8>>;
+    type Tx = IpcSender<Vec<u8>>;
+    fn chan() -> (IpcSender<Vec<u8>>, IpcReceiver<Vec<u8>>) {
+        ipc::channel().unwrap()
+    }
+    fn send(tx: &IpcSender<Vec<u8>>, d: Vec<u8>) {
+        let _ = tx.send(d);
+    }
+    fn new() -> Self {
+        IpcReceiverSet::new().unwrap()
+    }
+    fn add(&mut self, r: IpcReceiver<Vec<u8>>) -> u64 {
+        IpcReceiverSet::add(self, r).unwrap()
+    }
+    fn select(&mut self) -> Result<Vec<(u64, Option<Vec<u8>>)>, String> {
+        match IpcReceiverSet::select(self) {
+            Ok(evs) => Ok(evs
+                .into_iter()
+                .map(|e| match e {
+                    IpcSelectionResult::MessageReceived(rid, m) => (rid, Some(m.to::<Vec<u8>>().unwrap_or_default())),
+                    IpcSelectionResult::ChannelClosed(rid) => (rid, None),
+                })
+                .collect()),
+            Err(e) => Err(format!("{:?}", e)),
+        }
+    }
+}
 
 pub fn run() {
     let stdin = std::io::stdin();
@@ -20,13 +91,30 @@ pub fn run() {
             break;
         }
         let a = kv(&line);
+        let hang = if a.get("level").map(|s| s == "ipc").unwrap_or(false) { one::<IpcReceiverSet>(&a) } else { one::<OsIpcReceiverSet>(&a) };
+        if hang {
+            hangs += 1;
+        }
+    }
+}
+
+fn one<S: SetL>(a: &std::collections::HashMap<String, String>) -> bool {
+    {
         let id: u64 = a["id"].parse().unwrap();
         // plan: per member "len,len,...:h" (h = sender dropped at the end, k = kept until the very end)
         let plans: Vec<(Vec<usize>, bool)> = a["plan"]
             .split(';')
             .map(|p| {
                 let (l, f) = p.split_once(':').unwrap();
-                (l.split(',').filter(|x| !x.is_empty()).map(|x| x.parse().unwrap()).collect(), f.starts_with('h'))
+                let mut v: Vec<usize> = Vec::new();
+                for x in l.split(',').filter(|x| !x.is_empty()) {
+                    // "len*count" = count messages of that length
+                    match x.split_once('*') {
+                        Some((a, b)) => v.extend(std::iter::repeat(a.parse::<usize>().unwrap()).take(b.parse().unwrap())),
+                        None => v.push(x.parse().unwrap()),
+                    }
+                }
+                (v, f.starts_with('h'))
             })
             .collect();
         // phased: members whose flag ends in 'L' are added only after every event of the early members was reported
@@ -34,28 +122,33 @@ pub fn run() {
         let mode = a.get("mode").cloned().unwrap_or_else(|| "before".into());
         let threads: usize = a.get("threads").map(|s| s.parse().unwrap()).unwrap_or(1);
         let eintr: i64 = a.get("eintr").map(|s| s.parse().unwrap()).unwrap_or(0);
+        let rev = a.get("rev").map(|s| s == "1").unwrap_or(false);
+        let pace = a.get("pace").map(|s| s == "1").unwrap_or(false);
         let m = plans.len();
-        let mut txs: Vec<Option<OsIpcSender>> = Vec::new();
+        let mut txs: Vec<Option<S::Tx>> = Vec::new();
         let mut rxs = Vec::new();
         for _ in 0..m {
-            let (t, r) = platform::channel().unwrap();
+            let (t, r) = S::chan();
             txs.push(Some(t));
             rxs.push(Some(r));
         }
-        let mut set = OsIpcReceiverSet::new().unwrap();
+        let mut set = S::new();
         let mut ids: Vec<Option<u64>> = vec![None; m];
         if mode == "before" {
             for i in 0..m {
-                ids[i] = Some(set.add(rxs[i].take().unwrap()).unwrap());
+                ids[i] = Some(set.add(rxs[i].take().unwrap()));
             }
         }
         // sender threads: member i belongs to thread i % threads; a thread sends round-robin over its members
         let mut handles = Vec::new();
         for t in 0..threads {
-            let mine: Vec<(usize, OsIpcSender, Vec<usize>, bool)> = (0..m)
+            let mut mine: Vec<(usize, S::Tx, Vec<usize>, bool)> = (0..m)
                 .filter(|i| i % threads == t)
                 .map(|i| (i, txs[i].take().unwrap(), plans[i].0.clone(), plans[i].1))
                 .collect();
+            if rev {
+                mine.reverse();
+            }
             handles.push(std::thread::spawn(move || {
                 let mut mine: Vec<_> = mine.into_iter().map(|(i, tx, l, h)| (i, Some(tx), l, h, 0usize)).collect();
                 let mut keep = Vec::new();
@@ -64,7 +157,14 @@ pub fn run() {
                     for e in mine.iter_mut() {
                         if e.4 < e.2.len() {
                             let d = tagged(e.0 as u64, e.4 as u64, e.2[e.4]);
-                            let _ = e.1.as_ref().unwrap().send(&d, vec![], vec![]);
+                            S::send(e.1.as_ref().unwrap(), d);
+                            if pace {
+                                // sweep through gaps of a few ns .. a few us so that the selecting thread is sometimes ahead of the
+                                // sender (queue just drained) and sometimes behind
+                                for _ in 0..((e.4 * (7 + e.0)) % 1500) {
+                                    std::hint::spin_loop();
+                                }
+                            }
                             e.4 += 1;
                             progressed = true;
                         } else if let Some(tx) = e.1.take() {
@@ -82,7 +182,7 @@ pub fn run() {
                 keep
             }));
         }
-        let mut kept: Vec<OsIpcSender> = Vec::new();
+        let mut kept: Vec<S::Tx> = Vec::new();
         if mode == "after" {
             for h in handles.drain(..) {
                 kept.extend(h.join().unwrap());
@@ -94,14 +194,14 @@ pub fn run() {
             }
             for i in 0..m {
                 if !(mode == "phased" && late[i]) {
-                    ids[i] = Some(set.add(rxs[i].take().unwrap()).unwrap());
+                    ids[i] = Some(set.add(rxs[i].take().unwrap()));
                 }
             }
         }
         let phased = mode == "phased";
         let early_closed: usize = (0..m).filter(|i| plans[*i].1 && !late[*i]).count();
         let early_msgs: usize = (0..m).filter(|i| !late[*i]).map(|i| plans[i].0.len()).sum();
-        let mut late_rx: Vec<(usize, platform::OsIpcReceiver)> = Vec::new();
+        let mut late_rx: Vec<(usize, S::Rx)> = Vec::new();
         if phased {
             for i in 0..m {
                 if late[i] {
@@ -113,7 +213,7 @@ pub fn run() {
         let expected_msgs: usize = plans.iter().map(|p| p.0.len()).sum();
         eintr_every(eintr);
         mark(&format!("rset {}", id));
-        let res = with_watchdog(8_000, move || {
+        let res = with_watchdog(if pace { 30_000 } else { 8_000 }, move || {
             let mut batches: Vec<Vec<serde_json::Value>> = Vec::new();
             let (mut nclosed, mut nmsgs) = (0usize, 0usize);
             let mut late_rx = late_rx;
@@ -121,20 +221,20 @@ pub fn run() {
             while nclosed < expected_closed || nmsgs < expected_msgs {
                 if phased && !late_rx.is_empty() && nclosed >= early_closed && nmsgs >= early_msgs {
                     for (i, r) in late_rx.drain(..) {
-                        late_ids.push((i, set.add(r).unwrap()));
+                        late_ids.push((i, set.add(r)));
                     }
                 }
                 match set.select() {
                     Ok(evs) => {
                         let mut b = Vec::new();
-                        for e in evs {
-                            match e {
-                                OsIpcSelectionResult::DataReceived(rid, d, _, _) => {
+                        for (rid, d) in evs {
+                            match d {
+                                Some(d) => {
                                     let (s, q, l, ok) = untag(&d);
                                     b.push(json!([rid, "M", s, q, l, ok]));
                                     nmsgs += 1;
                                 },
-                                OsIpcSelectionResult::ChannelClosed(rid) => {
+                                None => {
                                     b.push(json!([rid, "C"]));
                                     nclosed += 1;
                                 },
@@ -143,7 +243,7 @@ pub fn run() {
                         batches.push(b);
                     },
                     Err(e) => {
-                        batches.push(vec![json!(["ERR", format!("{:?}", std::io::Error::from(e))])]);
+                        batches.push(vec![json!(["ERR", e])]);
                         break;
                     },
                 }
@@ -161,9 +261,6 @@ pub fn run() {
             },
             None => (vec![], true),
         };
-        if hang {
-            hangs += 1;
-        }
         if !hang {
             for h in handles {
                 kept.extend(h.join().unwrap());
@@ -171,5 +268,6 @@ pub fn run() {
         }
         drop(kept);
         println!("{}", json!({"kind":"rset","id":id,"ids":ids,"batches":batches,"hang":hang,"mode":mode,"members":m}));
+        hang
     }
 }
